@@ -71,7 +71,9 @@ def rule_handshake(chk: Check, view: AsyncView, rid: str):
                 f"{len(exc_pops)} _q_act.popleft on the CancelledError path, expected 1", loc)
         rets = [e for e in r.events if e.kind == "return" and e.func == fi.qualname]
         skipped = [e for e in rets if e.term[0] == "tuple" and e.term[1][0] == T.NONE]
-        chk.add(rid, "sync: skipped steps return (None, skipped)", len(skipped) == 1 and mentions(skipped[0].term, "_skipped"), "a step skipped because of a stop must return (None, self._skipped)", loc)
+        answered = [e for e in rets if e not in skipped]
+        ok = bool(skipped) and all(e.term == ("tuple", (T.NONE, S("self._skipped"))) for e in skipped) and all(flow.implies(e.guard, w.guard) and not is_exc(e) for e in answered)
+        chk.add(rid, "sync: skipped steps return (None, skipped)", ok, "a step skipped because of a stop must return (None, self._skipped); only an answered wait returns a step result", loc)
         # CancelledError path sets the flag
         exc_store = [e for e in r.events if e.kind == "store_attr" and e.name == "self._must_reset" and any(x[0] == "sym" and x[1].startswith("exc") for x in T.walk(e.guard))]
         chk.add(rid, "sync: cancellation remembered", len(exc_store) == 1 and exc_store[0].term == T.TRUE, "a cancelled action must set _must_reset so that later steps skip", loc)
